@@ -41,12 +41,15 @@ BRACKETS = {"a", "sp", "nl", "semi", "cont", "hash", "q1", "lp", "rp", "lb", "rb
 WORDS = {"a", "d", "ue", "dot", "sp", "nl", "cont", "lp", "rp", "lb", "rb", "eq", "q1", "f", "semi"}
 CHAINS = {"a", "dot", "cont", "lp", "rp", "nl", "q1", "q2"}
 FNEST = {"f", "q1", "q2", "lc", "rc", "a"}
+# every spelling (order x case) of the raw-f-string prefix, with a replacement field, and the
+# fr-order for contrast: fields of rf'..' / Rf'..' / fR'..' ... hold ordinary NAME tokens
+FPREFIX = {"rf", "rF", "Rf", "RF", "Fr", "q1", "lc", "rc"}   # the prefix symbols double as identifiers
 
 
 def slices(tier):
     """(name, symbols, max symbols per text, max frame nesting)"""
     quick = [("strings", STRINGS, 5, 3), ("brackets", BRACKETS, 5, 3), ("words", WORDS, 5, 3),
-             ("chains", CHAINS, 6, 3), ("fnest", FNEST, 7, 4)]
+             ("chains", CHAINS, 6, 3), ("fnest", FNEST, 7, 4), ("fprefix", FPREFIX, 6, 3)]
     if tier == "quick":
         return quick
     return quick + [
@@ -335,7 +338,7 @@ def main(tier):
     counts = {"names": 0, "regions": 0, "stmts": 0}
     samples = []
     # quick: all (small) models side by side; thorough: in groups, each compared before the next is generated
-    groups = [sl] if tier == "quick" else [sl[:5]] + [[x] for x in sl[5:]]
+    groups = [sl] if tier == "quick" else [sl[:6]] + [[x] for x in sl[6:]]
     for group in groups:
         out = {}
         threads = []
